@@ -288,3 +288,177 @@ def string_specs(tier):
 def string_task(tier):
     to = 120 if tier == 'thorough' else 40
     return xhair.xhair_task('C10', 'charlit.py', to, ['string_plain', 'string_plain__mustfail'], ['string_plain'])
+
+
+# ---------------------------------------------------------------------------
+# the same through the whole assemble(): the source is a *file* whose text holds the symbolic characters,
+# so the reader (read_lines: line splitting, blank-line test, include detection) is part of what runs
+# ---------------------------------------------------------------------------
+FILE_SHAPES = {
+    # name -> (directive prefix, slots)
+    'any1': ('string ', [S]),
+    'any2': ('string ', [S, S]),
+    'lead': ('string ', [S, 'a']),
+    'trail': ('string ', ['a', S]),
+    'trail2': ('string ', ['a', 'b', S, S]),
+    'indented': ('  string ', [S, S]),
+}
+ERROR_SHAPES = {
+    'any1': ('error ', [S]),
+    'any2': ('error ', [S, S]),
+    'any3': ('error ', [S, S, S]),
+    'word': ('error ', ['n', 'o', ' ', S, S]),
+}
+TAIL_LINES = ['L1:', 'add x20 x21 x22']
+TAIL_BYTES = bytes.fromhex('338a6a01')      # add x20, x21, x22 (checked against the real encoder at start-up)
+
+
+def symfile_task(kind, shape, prefix, slots):
+    """kind 'string': bytes and the label behind the directive; kind 'error' (C15): the refusal is the
+    assembler's own error naming the file and line of the directive"""
+    prop = 'C10' if kind == 'string' else 'C15'
+    tag = 'symfile:%s:%s' % (kind, shape)
+    res = TaskResult(tag)
+    prof = common.FuncProfile()
+    x = core.Explorer(timeout_ms=120000, max_paths=20000)
+    real = asmshim.load_asm_pristine()
+    assert bytes(real.assemble('add x20 x21 x22')) == TAIL_BYTES
+    nsym = sum(1 for s in slots if s is S or s == A)
+    n_ok = n_ref = n_mal = 0
+    from symx import vfs as vfsmod
+    head_lines = ['L0:'] if kind == 'error' else []
+    lineno = len(head_lines) + 1
+
+    def fn(p):
+        chars = symstr.sym_chars(p, nsym)
+        it = iter(chars)
+        text = [next(it) if (s is S or s == A) else ord(s) for s in slots]
+        for a, b in zip(text, text[1:]):
+            p.assume(Not(And(a == 0x5c, b == ord('N'))))
+        p.notes['text'] = text
+        p.notes['want'] = reference(text)
+        v = vfsmod.VFS('/w')
+        v.add_dir('/w')
+        content = []
+        for l in head_lines:
+            content += [ord(ch) for ch in l] + [0x0a]
+        content += [ord(ch) for ch in prefix] + text + [0x0a]
+        for l in TAIL_LINES:
+            content += [ord(ch) for ch in l] + [0x0a]
+        v.add_symtext('/w/main.asm', SymStr(content))
+        asm = asmshim.load_asm_shimmed(v)
+        symstr.install(asm)
+        labels = {}
+        with prof:
+            out = asm.assemble('/w/main.asm', labels=labels)
+        return out, labels
+
+    def concrete_text(p, mdl):
+        return ''.join(chr(core.concrete(c, mdl)) for c in p.notes['text'])
+
+    def real_outcome(txt):
+        import os
+        import shutil
+        import tempfile
+        root = tempfile.mkdtemp(prefix='bbverif_')
+        try:
+            path = os.path.join(root, 'main.asm')
+            with open(path, 'w', encoding='utf-8', newline='') as f:
+                f.write('\n'.join(head_lines + [prefix + txt] + TAIL_LINES) + '\n')
+            labels = {}
+            try:
+                out = real.assemble(path, labels=labels)
+                return ('ok', bytes(out), labels.get('L1'))
+            except Exception as e:        # noqa
+                line = getattr(e, 'line', None)
+                lf = getattr(line, 'file', None)
+                return ('exc', type(e).__name__, os.path.basename(lf) if isinstance(lf, str) else lf, getattr(line, 'number', None))
+        finally:
+            shutil.rmtree(root, ignore_errors=True)
+
+    def expected_ok(txt, r):
+        want = reference([ord(ch) for ch in txt])
+        if want is None:
+            return True
+        if kind == 'error':
+            return r[0] == 'exc' and r[1] == 'AssemblerError' and r[2] == 'main.asm' and r[3] == lineno
+        return r[0] == 'ok' and r[1] == bytes(want) + TAIL_BYTES and r[2] == len(want)
+
+    def violation(vk, p, mdl, what):
+        txt = concrete_text(p, mdl)
+        r = real_outcome(txt)
+        if expected_ok(txt, r):
+            res.inconc('%s: counterexample %r for %s did not reproduce on the real code' % (tag, txt, vk))
+            return
+        detail = '%s; source line %r: real code %s' % (what, prefix + txt, (r[1].hex(), 'L1=%r' % (r[2],)) if r[0] == 'ok' else r[1:])
+        path = common.write_replay(prop, tag + '_' + vk, dict(kind='program', property=prop, source='\n'.join(head_lines + [prefix + txt] + TAIL_LINES) + '\n',
+                                                               constants={}, what=detail))
+        res['violations'].append(dict(harness='symfile', directive=kind, shape=shape, kind=vk, inputs=dict(text=txt), what=detail, replay=path))
+        res.oblig(False)
+
+    for p, k, val in x.run(fn):
+        if k == 'limit':
+            res.inconc('%s: engine limit: %s' % (tag, val))
+            continue
+        model = p.witness()
+        txt = concrete_text(p, model)
+        r = real_outcome(txt)
+        if k == 'ok':
+            out, labels = val
+            symc = ('ok', symbytes_concrete(out, model), core.concrete(labels.get('L1'), model))
+        else:
+            line = getattr(val, 'line', None)
+            lf = getattr(line, 'file', None)
+            symc = ('exc', type(val).__name__, lf.split('/')[-1] if isinstance(lf, str) else lf, getattr(line, 'number', None))
+        if symc != r:
+            res.inconc('%s: witness replay mismatch for %r: symbolic %r, real %r' % (tag, txt, symc, r))
+            continue
+        res['validated'] += 1
+        want = p.notes.get('want', 'unset')
+        if isinstance(want, str):
+            res.inconc('%s: reference not evaluated' % tag)
+            continue
+        if len(res['samples']) < 2:
+            res['samples'].append(dict(source=prefix + txt, outcome=[r[0], r[1].hex() if r[0] == 'ok' else list(r[1:])]))
+        if want is None:
+            n_mal += 1
+            continue
+        if kind == 'error':
+            n_ref += 1
+            if k == 'exc' and symc[1:] == ('AssemblerError', 'main.asm', lineno):
+                res.oblig(True)
+            else:
+                violation('not-an-assembler-error', p, model, 'an error directive did not end in AssemblerError naming its file and line')
+            continue
+        if k == 'exc':
+            n_ref += 1
+            violation('refuses-wellformed', p, model, 'a well-formed string was refused (%s)' % type(val).__name__)
+            continue
+        n_ok += 1
+        out, labels = val
+        got = symstr._byte_values(out)
+        L1 = labels.get('L1')
+        if len(got) != len(want) + len(TAIL_BYTES) or isinstance(L1, SymInt) or L1 != len(want):
+            violation('length', p, model, 'emitted %d bytes, label L1 at %r, documented %d string bytes' % (len(got), L1, len(want)))
+            continue
+        diff = [_z(g) != _z(w) for g, w in zip(got, list(want) + list(TAIL_BYTES))]
+        rr, mdl = p.sat(SymBool(z3.Or(*diff))) if diff else ('unsat', None)
+        if rr == 'sat':
+            violation('wrong-bytes', p, mdl, 'emitted bytes differ from the UTF-8 encoding of the unescaped text')
+        else:
+            res.oblig(True if rr == 'unsat' else None, 'unknown %s' % tag)
+        if len(res['violations']) >= 3:
+            break
+    if n_ok + n_ref == 0:
+        res['vacuity'].append('%s: no well-formed path' % tag)
+    res['notes'].append('%s: %d accepted, %d refused, %d malformed-escape paths (outside the claim)' % (tag, n_ok, n_ref, n_mal))
+    if x.truncated:
+        res.inconc('%s: path budget exhausted' % tag)
+    res.absorb_stats(x.stats)
+    res['functions'] = prof.names()
+    return res
+
+
+def symfile_specs(kind):
+    shapes = FILE_SHAPES if kind == 'string' else ERROR_SHAPES
+    return [('harness.strings', 'symfile_task', (kind, name, pre, slots)) for name, (pre, slots) in shapes.items()]
